@@ -1,6 +1,6 @@
 (* Non-vacuity examples and refutation witnesses for Properties/C10.v. *)
 From Coq Require Import List NArith Bool Arith.
-From Storage Require Import Base.Bytes Lang.Tokens Lang.Lexer Lang.Regex Lang.LexerFull Lang.Glue Lang.BoolSurface Lang.BoolGrammar Lang.GlueEntry.
+From Storage Require Import Base.Bytes Lang.Tokens Lang.Lexer Lang.Regex Lang.LexerFull Lang.Glue Lang.BoolSurface Lang.BoolGrammar Lang.GlueEntry Lang.ForeignBlank.
 Import ListNotations.
 Open Scope N_scope.
 
@@ -106,4 +106,46 @@ Example entry_points_agree_nondebug_only_refuted :
 Proof.
   exists q_hash, [(EParse, q_hash)].
   split; [vm_compute; discriminate|]. repeat split; vm_compute; reflexivity.
+Qed.
+
+
+(* ---- blank-like foreign characters (Lang/ForeignBlank.v) ---- *)
+(* the table holds the 21 runes of Go's unicode.IsSpace that are no white space of the grammar, 125 characters in all, no duplicates *)
+Example blank_table_sizes : length go_space_foreign = 21%nat /\ length blank_like_foreign = 125%nat /\ NoDup blank_like_foreign.
+Proof.
+  split; [reflexivity|]. split; [reflexivity|].
+  assert (H : forall l : list N, (fix nd (l : list N) : bool := match l with [] => true | x :: r => negb (existsb (N.eqb x) r) && nd r end) l = true -> NoDup l).
+  { induction l as [|x r IH]; intros H; [constructor|]. apply andb_true_iff in H. destruct H as [H1 H2]. constructor; [|auto].
+    intro Hin. apply negb_true_iff in H1. assert (existsb (N.eqb x) r = true) by (apply existsb_exists; exists x; split; [exact Hin|apply N.eqb_refl]). congruence. }
+  apply H. vm_compute. reflexivity.
+Qed.
+
+(* NBSP name = "x"   and   name = "x" NBSP : refused through the diagnostic entry point on pooled instances as through any
+   other, although the text without the NBSP is accepted (non-vacuity of foreign_blank_at_an_edge_rejected) *)
+Example nbsp_in_front_rejected :
+  run_entry nat toy_parser LexerAlways (EParseWithDebug true) 3 (pool_after nat toy_parser LexerAlways 0 fresh_instances some_history) (160 :: q_plain) = Rejected
+  /\ run_entry nat toy_parser LexerAlways EAstParse 0 fresh_instances (q_plain ++ [160]) = Rejected
+  /\ run_entry nat toy_parser LexerAlways EAstParse 0 fresh_instances ([32; 9] ++ 11 :: q_plain) = Rejected
+  /\ run_entry nat toy_parser LexerAlways EAstParse 0 fresh_instances q_plain = Accepted 1%nat.
+Proof. repeat split; vm_compute; reflexivity. Qed.
+
+(* why the theorems speak about the EDGES: inside a string literal NBSP is data (SAFECODEPOINT), the text
+   name = "xNBSP"  is a sentence; a control character (VT) is not even that *)
+Example nbsp_inside_a_string_is_data :
+  drops_of (lex_full [110; 97; 109; 101; 32; 61; 32; 34; 120; 160; 34]) = [] /\
+  drops_of (lex_full [110; 97; 109; 101; 32; 61; 32; 34; 120; 11; 34]) <> [].
+Proof. split; [vm_compute; reflexivity|vm_compute; discriminate]. Qed.
+
+(* an entry point that strips what Go calls white space (strings.TrimSpace) before it hands the text to the glue:
+   VT name = "x" NBSP  - not a sentence, the lexer reports two characters - becomes the query of  name = "x" *)
+Definition go_blank (c : N) : bool := is_ws c || existsb (N.eqb c) go_space_foreign.
+Fixpoint trim_left (s : str) : str := match s with c :: r => if go_blank c then trim_left r else s | [] => [] end.
+Definition trim_space (s : str) : str := rev (trim_left (rev (trim_left s))).
+
+Example trimming_entry_point_refuted :
+  exists s, drops_of (lex_full s) <> [] /\
+    run_entry nat toy_parser LexerAlways EAstParse 0 fresh_instances s = Rejected /\
+    run_entry nat toy_parser LexerAlways EAstParse 0 fresh_instances (trim_space s) = Accepted 1%nat.
+Proof.
+  exists (11 :: q_plain ++ [160]). split; [vm_compute; discriminate|]. split; vm_compute; reflexivity.
 Qed.
